@@ -143,8 +143,16 @@ def lu_pivot_magnitude(ck, prog):
         if r["lhs"] == "data" and r["rhs"] == "data" and r["rel"] in ("<", "<=", ">", ">="):
             n += 1
             l, rr = r["data_term"], r["const_term"]
-            if is_abs(l) and is_abs(rr):
+            # one side is the candidate (indexed by the loop variable), the other the CURRENT best, i.e. indexed by the
+            # running arg-max variable that is re-assigned inside the loop
+            def idx_locals(t):
+                return [s[2] for s in subterms(t) if s[0] == "idx"]
+            running = [i for side in (l, rr) for i in idx_locals(side) if i[0] == "phi" and any(a[0] != "int" and a[0] != "call" for a in i[2])]
+            if is_abs(l) and is_abs(rr) and running:
                 ck.ok(rule, inst, b.path, r["where"], r["text"])
+            elif is_abs(l) and is_abs(rr):
+                ck.violation(rule, inst, b.path, r["where"], expected="|candidate| compared with |current pivot| (the running maximum)",
+                             found=f"neither side is indexed by the running arg-max variable: {render(l)[:70]} {r['rel']} {render(rr)[:70]}")
             else:
                 ck.violation(rule, inst, b.path, r["where"], expected="|candidate| compared with |current pivot|",
                              found=f"{render(l)[:80]} {r['rel']} {render(rr)[:80]}")
